@@ -366,4 +366,30 @@ theorem wp_act_invariant (S : Sem A W T) (inj : T → E → Prop) (Pinv : W → 
       (fun _ h' => h')
   | get k ih => intro b w h; exact ih w b w h
 
+/-- fewer injectable exceptions, fewer obligations -/
+theorem wp_inj_mono (S : Sem A W T) (inj inj' : T → E → Prop) (hi : ∀ t e, inj' t e → inj t e) (p : Prog A E W) :
+    ∀ (b : Bool) (Qn : Bool → W → Prop) (Qx : Bool → E → W → Prop) (w : W),
+      wp S inj p b Qn Qx w → wp S inj' p b Qn Qx w := by
+  induction p with
+  | done => intro b Qn Qx w h; exact h
+  | raise e => intro b Qn Qx w h; exact h
+  | act a k ih =>
+    intro b Qn Qx w h
+    exact ⟨fun hb t ht e he => h.1 hb t ht e (hi t e he), ih b Qn Qx _ h.2⟩
+  | seq p q ihp ihq =>
+    intro b Qn Qx w h
+    exact wp_mono S inj' p b _ _ _ _ w (fun b' w' h' => ihq b' Qn Qx w' h') (fun _ _ _ h' => h') (ihp b _ Qx w h)
+  | tryFinally body fin ihb ihf =>
+    intro b Qn Qx w h
+    exact wp_mono S inj' body b _ _ _ _ w (fun b' w' h' => ihf b' Qn Qx w' h')
+      (fun b' e w' h' => ihf b' _ Qx w' h') (ihb b _ _ w h)
+  | tryExcept body c hd ihb ihh =>
+    intro b Qn Qx w h
+    refine wp_mono S inj' body b _ _ _ _ w (fun _ _ h' => h') ?_ (ihb b Qn _ w h)
+    intro b' e w' h'
+    by_cases hc : c e = true
+    · simp only [hc, if_true] at h' ⊢; exact ihh e b' Qn Qx w' h'
+    · simp only [hc] at h' ⊢; exact h'
+  | get k ih => intro b Qn Qx w h; exact ih w b Qn Qx w h
+
 end TIV.Prog
